@@ -159,12 +159,39 @@ tls_desc: sub $8,%%rsp
 .section .note.GNU-stack,"",@progbits
 """
 
+# large code model (-mcmodel=large -fPIC) general-/local-dynamic sequences: __tls_get_addr is called
+# through its PLT offset from the GOT base held in %%rbx
+TLS_ASM_LARGE = r"""
+.text
+.globl tls_gd_large
+tls_gd_large: push %%rbx
+         lea _GLOBAL_OFFSET_TABLE_(%%rip),%%rbx
+         leaq tv_%(n)s@tlsgd(%%rip),%%rdi
+         movabsq $__tls_get_addr@pltoff,%%rax
+         addq %%rbx,%%rax
+         call *%%rax
+         pop %%rbx
+         ret
+.globl tls_ld_large
+tls_ld_large: push %%rbx
+         lea _GLOBAL_OFFSET_TABLE_(%%rip),%%rbx
+         leaq tv_%(n)s@tlsld(%%rip),%%rdi
+         movabsq $__tls_get_addr@pltoff,%%rax
+         addq %%rbx,%%rax
+         call *%%rax
+         leaq tv_%(n)s@dtpoff(%%rax),%%rax
+         pop %%rbx
+         ret
+.section .note.GNU-stack,"",@progbits
+"""
+
 C_MAIN = r"""
 #include <stdio.h>
 struct res { unsigned long v, f; };
 typedef struct res (*tf)(void);
 extern tf t_tab[], e_tab[]; extern int n_tests;
 extern void *tls_ie(void), *tls_ie_add(void), *tls_gd(void), *tls_ld(void), *tls_desc(void);
+extern void *tls_gd_large(void) __attribute__((weak)), *tls_ld_large(void) __attribute__((weak));
 extern __thread long tv_a; __thread long tv_a = 77; __thread long tv_pad[3];
 extern void *addr_of_tv(void);
 int run_all(void) {
@@ -179,6 +206,8 @@ int run_all(void) {
   if (tls_gd() != w) { printf("MISMATCH tls_gd\n"); bad++; }
   if (tls_ld() != w) { printf("MISMATCH tls_ld\n"); bad++; }
   if (tls_desc() != w) { printf("MISMATCH tls_desc\n"); bad++; }
+  if (tls_gd_large && tls_gd_large() != w) { printf("MISMATCH tls_gd_large\n"); bad++; }
+  if (tls_ld_large && tls_ld_large() != w) { printf("MISMATCH tls_ld_large\n"); bad++; }
   printf("checked %d bad %d\n", n_tests + 5, bad);
   return bad;
 }
@@ -205,6 +234,9 @@ def one(ctx, ci):
     o_drv = tools.compile_c(ctx, C_DRV, ["-O1", *pic], name="c14-drv" + pic[0])
     wd = ctx.scratch.dir("c", ci)
     objs = [o_asm, o_tls, o_main, o_addr]
+    if kind != "shared" and r.random() < 0.7:
+        objs.append(tools.assemble(ctx, TLS_ASM_LARGE % {"n": "a"}, name="c14-tls-large"))
+        ctx.note("tls-large-model-forms")
     kf = {"static": ["-static", "-no-pie"], "static-pie": ["-static-pie"], "pie": ["-pie"], "shared": ["-shared"]}[kind]
     dsl = [f"-Wl,{d}" for d in defsyms]
 
@@ -235,6 +267,11 @@ def one(ctx, ci):
             msg = lw.errtext()
             if "panicked" in msg:
                 ctx.violation(f"panic:{kind}:{tag}", msg[:300], case=ci, files={"t.s": asm + tab})
+            elif tag == "norelax" and "Undefined symbol __tls_get_addr" in msg and "c14-tls-large" in msg:
+                # with --no-relax wild keeps the large-model call sequence, and a static link has no
+                # __tls_get_addr to call: nothing was relaxed, so there is no relaxation to judge
+                ctx.note("info:large-model-tls-unrelaxed-needs-__tls_get_addr:" + kind)
+                continue
             else:
                 sig = "link-rejected"
                 # attribute to a symbol class if the message names a symbol
